@@ -363,8 +363,28 @@ func main() {
 			pts = append(pts, orb.Point{lon, lat})
 		}
 	}
+	// just off the tile edges: 2e-10, 5e-8 and 1e-5 degrees to either side of every tile corner up to zoom 3 (at zoom
+	// 30 a tile is 3.4e-7 degrees wide: these are points well inside a deep tile, next to its edge)
+	for z := 0; z <= 3; z++ {
+		for x := 0; x <= 1<<z; x++ {
+			for y := 1; y < 1<<z; y++ {
+				n := float64(uint32(1) << z)
+				lon := float64(x)/n*360 - 180
+				lat := math.Atan(math.Sinh(math.Pi*(1-2*float64(y)/n))) * 180 / math.Pi
+				for _, d := range []float64{2e-10, 5e-8, 1e-5} {
+					for _, sx := range []float64{-1, 1} {
+						for _, sy := range []float64{-1, 1} {
+							if l := lon + sx*d; l > -180 && l < 180 {
+								pts = append(pts, orb.Point{l, lat + sy*d})
+							}
+						}
+					}
+				}
+			}
+		}
+	}
 	r.Count("points", int64(len(pts)))
-	r.Explore("points", fmt.Sprintf("%d points (tile corners, edge midpoints, centres to zoom 6; antimeridian, range ends, poles) x every zoom 0..30: At is valid and its bound contains the point", len(pts)), mc.Opts{MaxDev: -1, Split: 1}, func(c *mc.Ctx) {
+	r.Explore("points", fmt.Sprintf("%d points (tile corners, edge midpoints, centres to zoom 6; points 2e-10 .. 1e-5 degrees off the tile corners to zoom 3; antimeridian, range ends, poles) x every zoom 0..30: At is valid and its bound contains the point", len(pts)), mc.Opts{MaxDev: -1, Split: 1}, func(c *mc.Ctx) {
 		p := pts[c.Choose(len(pts))]
 		for z := maptile.Zoom(0); z <= 30; z++ {
 			checkPoint(c, p, z)
